@@ -13,3 +13,22 @@ macro_rules! vassert {
     { if !($c) { eprintln!("VERIF-FAIL {}", $tag); } }
   }};
 }
+
+/// A group of obligations that must be decided INDEPENDENTLY of each other.  Kani's `assert!` also assumes its
+/// condition afterwards, so in a plain sequence an earlier failing obligation hides later ones on the same paths
+/// (e.g. a wrong bus trace would hide a wrong cycle count).  Here a nondeterministic selector picks which single
+/// obligation a path checks, so every obligation is decided over all inputs.  In native replay all are evaluated.
+#[macro_export]
+macro_rules! vchecks {
+  ($( ($c:expr, $tag:expr) ),+ $(,)?) => {{
+    let __sel: u8 = kani::any();
+    #[cfg(not(verif_playback))]
+    {
+      let mut __i: u8 = 0;
+      $( if __sel == __i { assert!($c, $tag); } __i += 1; )+
+      let _ = __i;
+    }
+    #[cfg(verif_playback)]
+    { let _ = __sel; $( if !($c) { eprintln!("VERIF-FAIL {}", $tag); } )+ }
+  }};
+}
